@@ -8,6 +8,7 @@
 import Gnet.Model.Options
 import Gnet.Proofs.Arith
 import Gnet.Proofs.Options
+import Gnet.Props.C16Url
 namespace Gnet.Props.C16
 open Gnet Gnet.Options
 
@@ -74,5 +75,27 @@ theorem dispatch_errors (u : UrlParts) (he : u.err = false) :
 example : Gen.normReadCapServer 5000#64 65536#64 = some 8192#64 := by decide
 example : Gen.determineEventLoops true 0#64 16#64 = some 16#64 := by decide
 example : dispatch ⟨false, "tcp6", "[fe80::1%eth0]:80", "", "[fe80::1%eth0]:80"⟩ = .ok "tcp6" "[fe80::1%eth0]:80" := by decide
+
+/-! ### Address parsing, whole function (model of `net/url.Parse` + `path.Join` + the dispatch: Model/Url.lean)
+
+Stated with their full hypotheses and examples in Props/C16Url.lean; restated here because they are obligations
+of C16. The model of url.Parse is tied to Go's by the correspondence run (every generated and fuzzed address:
+error-or-not, scheme, host, path, joined path and the final result must agree). -/
+
+theorem parse_ip_exact : type_of% @Gnet.Props.C16Url.parse_ip_exact := @Gnet.Props.C16Url.parse_ip_exact
+
+theorem v6_forms : type_of% @Gnet.Props.C16Url.v6_forms := @Gnet.Props.C16Url.v6_forms
+
+theorem parse_unix_exact : type_of% @Gnet.Props.C16Url.parse_unix_exact := @Gnet.Props.C16Url.parse_unix_exact
+
+theorem parse_unix_clean : type_of% @Gnet.Props.C16Url.parse_unix_clean := @Gnet.Props.C16Url.parse_unix_clean
+
+theorem parse_total : type_of% @Gnet.Props.C16Url.parse_total := @Gnet.Props.C16Url.parse_total
+
+theorem parse_unknown_scheme : type_of% @Gnet.Props.C16Url.parse_unknown_scheme := @Gnet.Props.C16Url.parse_unknown_scheme
+
+theorem parse_no_scheme : type_of% @Gnet.Props.C16Url.parse_no_scheme := @Gnet.Props.C16Url.parse_no_scheme
+
+theorem parse_no_scheme_name : type_of% @Gnet.Props.C16Url.parse_no_scheme_name := @Gnet.Props.C16Url.parse_no_scheme_name
 
 end Gnet.Props.C16
